@@ -341,9 +341,14 @@ impl Version {
         let mut input = original;
 
         if input.len() > MAX_LENGTH {
+            // Point at the first character past the limit (a char boundary).
+            let mut at = MAX_LENGTH;
+            while !input.is_char_boundary(at) {
+                at -= 1;
+            }
             return Err(SemverError {
                 input: input.into(),
-                span: (input.len() - 1, 0).into(),
+                span: (at, 0).into(),
                 kind: SemverErrorKind::MaxLengthError,
             });
         }
